@@ -180,6 +180,35 @@ def r16_3(ctx, fx):
                        detail="roots of query_id: %s" % sorted(rs))
 
 
+def _positive(fn, o, depth=0):
+    """operand provably >= 1: a constant >= 1, NonZero::get, max(.., positive), min(positive, positive), through copies"""
+    if depth > 12:
+        return False
+    k = o.get("k")
+    if k is not None:
+        return isinstance(k.get("v"), int) and k["v"] >= 1
+    p = o.get("m") or o.get("c")
+    if not p or len(p) != 1:
+        return False
+    ds = fn.defs().get(p[0], [])
+    if not ds:
+        return False
+    for node, kind, pl in ds:
+        if kind == "call":
+            c = fn.call_at(node)
+            if re.search(r"num::NonZero(<.*>)?::get$", c.name):
+                continue
+            if re.search(r"cmp::max$|Ord>?::max$", c.name) and any(_positive(fn, a, depth + 1) for a in c.args):
+                continue
+            if re.search(r"cmp::min$|Ord>?::min$", c.name) and all(_positive(fn, a, depth + 1) for a in c.args):
+                continue
+            return False
+        if kind == "assign" and pl["rv"]["r"] in ("use", "cast") and _positive(fn, pl["rv"]["o"], depth + 1):
+            continue
+        return False
+    return True
+
+
 def r16_4(ctx, fx):
     T = "protocol::libp2p::kademlia::query::target_peers::PutToTargetPeersContext::"
     fn = ctx.fn(fx, T + "next_action", "R16.4")
@@ -196,6 +225,17 @@ def r16_4(ctx, fx):
                 ok = ok and any(fn.only_via(succ[0][0], sw, [t]) for sw, t, f in tests)
             ctx.ob("R16.4", "next_action/QuerySucceeded-only-if-finished-and-quorum", ok, site=fn.site(succ[0][0]), cfg=fx.cfg,
                    detail="QuerySucceeded must lie behind the true edges of is_finished() and is_succeded()")
+    fn = ctx.fn(fx, T + "new", "R16.4")
+    if fn is not None:
+        aggs = [(n, s_) for n, s_ in fn.aggregates(r"PutToTargetPeersContext$") if "peers_to_succeed" in s_["rv"].get("fields", [])]
+        ctx.anchor("R16.4", "PutToTargetPeersContext literal", len(aggs), 1, cfg=fx.cfg)
+        for n, s_ in aggs:
+            o = s_["rv"]["ops"][s_["rv"]["fields"].index("peers_to_succeed")]
+            ctx.ob("R16.4", "new/peers_to_succeed>=1-for-every-quorum", _positive(fn, o), site=fn.site(n), cfg=fx.cfg,
+                   detail="with a required count of 0 and no usable target the context reports success although nothing was sent; every arm of the "
+                          "quorum match must yield a value >= 1 (constant, NonZero::get, max(.., 1), min of such)")
+            z = s_["rv"]["ops"][s_["rv"]["fields"].index("n_succeeded")] if "n_succeeded" in s_["rv"]["fields"] else None
+            ctx.ob("R16.4", "new/n_succeeded-starts-at-0", z is not None and fn.const_value(z) == 0, site=fn.site(n), cfg=fx.cfg)
     fn = ctx.fn(fx, T + "is_succeded", "R16.4")
     if fn is not None:
         is_q = lambda f, o: guards.has_root(f, o, r"\.n_succeeded")
